@@ -162,7 +162,7 @@ fn parse_re(s: &[u8], i: &mut usize) -> Re {
 }
 
 #[derive(Clone, Debug)]
-struct Tok { prec: i32, is_string: bool, re: Re, immediate: bool }
+struct Tok { prec: i32, is_string: bool, re: Re, immediate: bool, ci: bool }
 
 #[derive(Clone, Debug)]
 struct TokSet { word: Option<usize>, extras: usize, toks: Vec<Tok> }
@@ -176,7 +176,7 @@ const WIDE: [u32; 9] = [0x28, 0x2b, 0x2d, 0x30, 0x3b, 0x61, 0x63, 0xe9, 0x3bb];
 impl TokSet {
     fn ser(&self) -> String {
         let mut s = format!("w{}x{}", self.word.map(|w| w.to_string()).unwrap_or("-".into()), self.extras);
-        for t in &self.toks { s.push_str(&format!(";{},{},{}", t.prec, t.is_string as u8 + 2 * t.immediate as u8, t.re.ser())); }
+        for t in &self.toks { s.push_str(&format!(";{},{},{}", t.prec, t.is_string as u8 + 2 * t.immediate as u8 + 4 * t.ci as u8, t.re.ser())); }
         s
     }
     fn parse(s: &str) -> TokSet {
@@ -192,7 +192,7 @@ impl TokSet {
             let is_string = flags & 1 == 1;
             let mut i = 0;
             let re = parse_re(f.next().unwrap().as_bytes(), &mut i);
-            Tok { prec, is_string, re, immediate: flags & 2 == 2 }
+            Tok { prec, is_string, re, immediate: flags & 2 == 2, ci: flags & 4 == 4 }
         }).collect();
         TokSet { word, extras, toks }
     }
@@ -206,6 +206,8 @@ impl TokSet {
                 json!({"type":"STRING","value": v.iter().map(|c| char::from_u32(*c).unwrap()).collect::<String>()})
             } else if let Re::Alts(v) = &t.re {
                 json!({"type":"CHOICE","members": v.iter().map(|(p, r)| json!({"type":"PREC","value":p,"content":{"type":"PATTERN","value":r.pattern()}})).collect::<Vec<_>>()})
+            } else if t.ci {
+                json!({"type":"PATTERN","value": t.re.pattern(), "flags": "i"})
             } else {
                 json!({"type":"PATTERN","value": t.re.pattern()})
             };
@@ -305,12 +307,12 @@ fn rand_set(rng: &mut Rng) -> TokSet {
             if !with_word && v.len() >= 2 && rng.chance(1, 6) { v.insert(1, 0x20); }
             if lits.contains(&v) { continue; }
             lits.push(v.clone());
-            toks.push(Tok { prec, is_string: true, re: Re::Lit(v), immediate: false });
+            toks.push(Tok { prec, is_string: true, re: Re::Lit(v), immediate: false, ci: false });
         } else {
             let re = match rng.below(4) { 0 => rand_re_with_reps(rng, &focus), 1 => rand_re(rng, 3, &focus), _ => rand_re(rng, 2, &focus) };
             if re.nullable() || toks.iter().any(|t| t.re.ser() == re.ser()) { continue; }
             if let Re::Lit(v) = &re { if lits.contains(v) { continue; } lits.push(v.clone()); }
-            toks.push(Tok { prec, is_string: false, re, immediate: false });
+            toks.push(Tok { prec, is_string: false, re, immediate: false, ci: false });
         }
     }
     // directed family for the precedence cut-off: x (high), x y z (high, keeps the DFA alive), x y+ (low)
@@ -318,9 +320,9 @@ fn rand_set(rng: &mut Rng) -> TokSet {
         let (x, y, z) = (pick_sym(rng, &focus), pick_sym(rng, &focus), *rng.pick(&ALPHA));
         let hi = rng.range(1, 2) as i32;
         let fam = vec![
-            Tok { prec: hi, is_string: rng.chance(1, 2), re: Re::Lit(vec![x]), immediate: false },
-            Tok { prec: hi - rng.below(2) as i32, is_string: true, re: Re::Lit(vec![x, y, z]), immediate: false },
-            Tok { prec: 0, is_string: false, re: Re::Seq(Box::new(Re::Lit(vec![x])), Box::new(Re::Plus(Box::new(Re::Lit(vec![y]))))), immediate: false },
+            Tok { prec: hi, is_string: rng.chance(1, 2), re: Re::Lit(vec![x]), immediate: false, ci: false },
+            Tok { prec: hi - rng.below(2) as i32, is_string: true, re: Re::Lit(vec![x, y, z]), immediate: false, ci: false },
+            Tok { prec: 0, is_string: false, re: Re::Seq(Box::new(Re::Lit(vec![x])), Box::new(Re::Plus(Box::new(Re::Lit(vec![y]))))), immediate: false, ci: false },
         ];
         for t in fam {
             if let Re::Lit(v) = &t.re { if lits.contains(v) { continue; } lits.push(v.clone()); }
@@ -340,7 +342,7 @@ fn rand_set(rng: &mut Rng) -> TokSet {
             lits.push(v.clone());
             let at = rng.below(toks.len() + 1);
             let is_string = rng.chance(2, 3);
-            toks.insert(at, Tok { prec: if prec_mode == 0 { 0 } else { *rng.pick(&[0, 0, 0, 1]) }, is_string, re: Re::Lit(v), immediate: false });
+            toks.insert(at, Tok { prec: if prec_mode == 0 { 0 } else { *rng.pick(&[0, 0, 0, 1]) }, is_string, re: Re::Lit(v), immediate: false, ci: false });
         }
     }
     // family: classes with >= 8 ranges, used by several tokens (rendered as large character sets)
@@ -356,7 +358,28 @@ fn rand_set(rng: &mut Rng) -> TokSet {
             let re = rng.pick(&shapes).clone();
             if toks.iter().any(|t| t.re.ser() == re.ser()) { continue; }
             let at = rng.below(toks.len() + 1);
-            toks.insert(at, Tok { prec: if prec_mode == 0 { 0 } else { *rng.pick(&[0, 0, 1]) }, is_string: false, re, immediate: false });
+            toks.insert(at, Tok { prec: if prec_mode == 0 { 0 } else { *rng.pick(&[0, 0, 1]) }, is_string: false, re, immediate: false, ci: false });
+        }
+    }
+    // token identity: the SAME regex source with different flags (case-insensitive `i`) are different tokens
+    if !with_word && rng.chance(1, 4) {
+        let has_letter = |t: &Tok| { let s = t.re.ser(); ["61", "62", "63", "64", "e9", "3bb"].iter().any(|h| s.contains(h)) };
+        for _ in 0..rng.range(1, 2) {
+            let cands: Vec<usize> = (0..toks.len()).filter(|i| !toks[*i].is_string && !matches!(toks[*i].re, Re::Alts(_)) && has_letter(&toks[*i])).collect();
+            if cands.is_empty() { break; }
+            let i = *rng.pick(&cands);
+            match rng.below(3) {
+                0 => toks[i].ci = true,
+                _ => {
+                    // a copy of token i that differs ONLY in the flag, anywhere in the rule order
+                    if toks.iter().any(|t| t.re.ser() == toks[i].re.ser() && t.ci != toks[i].ci) { continue; }
+                    let mut copy = toks[i].clone();
+                    copy.ci = !copy.ci;
+                    if rng.chance(1, 3) { copy.prec = *rng.pick(&[0, 1]); }
+                    let at = rng.below(toks.len() + 1);
+                    toks.insert(at, copy);
+                }
+            }
         }
     }
     // precedence INSIDE a token: token(prec(p0, choice(prec(p1, r1), prec(p2, r2), …)))
@@ -372,7 +395,7 @@ fn rand_set(rng: &mut Rng) -> TokSet {
             let re = Re::Alts(alts);
             if toks.iter().any(|t| t.re.ser() == re.ser()) { continue; }
             let at = rng.below(toks.len() + 1);
-            toks.insert(at, Tok { prec: *rng.pick(&[0, 0, 1]), is_string: false, re, immediate: false });
+            toks.insert(at, Tok { prec: *rng.pick(&[0, 0, 1]), is_string: false, re, immediate: false, ci: false });
         }
     }
     // immediate tokens (`token.immediate`): recognised only when no extras precede them
@@ -388,7 +411,7 @@ fn rand_set(rng: &mut Rng) -> TokSet {
         let w = rng.below(toks.len() + 1);
         let re = Re::Seq(Box::new(Re::Cls(false, vec![(0x61, 0x64), (0xe9, 0xe9), (0x3bb, 0x3bb)])),
                          Box::new(Re::Star(Box::new(Re::Cls(false, vec![(0x61, 0x64), (0x30, 0x31), (0xe9, 0xe9), (0x3bb, 0x3bb)])))));
-        toks.insert(w, Tok { prec: 0, is_string: false, re, immediate: false });
+        toks.insert(w, Tok { prec: 0, is_string: false, re, immediate: false, ci: false });
         word = Some(w);
     }
     TokSet { word, extras, toks }
@@ -512,7 +535,7 @@ impl ModeSet {
         let mut s = format!("mx{}f{}w{}r{}", self.extras, self.follow.map(|(a, b)| format!("{a}.{b}")).unwrap_or("-".into()),
             self.word.map(|w| w.to_string()).unwrap_or("-".into()),
             if self.reserved.is_empty() { "-".to_string() } else { self.reserved.iter().map(|k| k.to_string()).collect::<Vec<_>>().join(".") });
-        for (t, m) in self.toks.iter().zip(&self.masks) { s.push_str(&format!(";{},{},{},{}", t.prec, t.is_string as u8, m, t.re.ser())); }
+        for (t, m) in self.toks.iter().zip(&self.masks) { s.push_str(&format!(";{},{},{},{}", t.prec, t.is_string as u8 + 4 * t.ci as u8, m, t.re.ser())); }
         s
     }
     fn parse(s: &str) -> ModeSet {
@@ -530,10 +553,11 @@ impl ModeSet {
         for p in parts {
             let mut f = p.splitn(4, ',');
             let prec = f.next().unwrap().parse().unwrap();
-            let is_string = f.next().unwrap() == "1";
+            let flags: u8 = f.next().unwrap().parse().unwrap_or(0);
+            let is_string = flags & 1 == 1;
             masks.push(f.next().unwrap().parse().unwrap());
             let mut i = 0;
-            toks.push(Tok { prec, is_string, re: parse_re(f.next().unwrap().as_bytes(), &mut i), immediate: false });
+            toks.push(Tok { prec, is_string, re: parse_re(f.next().unwrap().as_bytes(), &mut i), immediate: false, ci: flags & 4 == 4 });
         }
         ModeSet { extras, follow, word, reserved, toks, masks }
     }
@@ -593,25 +617,44 @@ fn sample_re(re: &Re, rng: &mut Rng, out: &mut Vec<u32>) {
 fn rand_mode_set(rng: &mut Rng) -> ModeSet {
     let base = loop { let b = rand_set(rng); if b.word.is_none() { break b; } };
     let mut toks: Vec<Tok> = base.toks.into_iter().filter(|t| match &t.re { Re::Lit(v) => !(v.len() == 1 && (v[0] == 0x28 || v[0] == 0x29)), Re::Alts(_) => false, _ => true }).collect();
-    if toks.len() < 2 { toks.push(Tok { prec: 0, is_string: true, re: Re::Lit(vec![0x61]), immediate: false }); toks.push(Tok { prec: 0, is_string: true, re: Re::Lit(vec![0x62]), immediate: false }); }
+    if toks.len() < 2 { toks.push(Tok { prec: 0, is_string: true, re: Re::Lit(vec![0x61]), immediate: false, ci: false }); toks.push(Tok { prec: 0, is_string: true, re: Re::Lit(vec![0x62]), immediate: false, ci: false }); }
     if toks.len() > 10 { toks.truncate(10); }
     for t in toks.iter_mut() { t.immediate = false; }
+    { let mut seen: Vec<(String, bool, bool)> = Vec::new(); toks.retain(|t| { let k = (t.re.ser(), t.is_string, t.ci); if seen.contains(&k) { false } else { seen.push(k); true } }); }
+    // token identity: the same text in different wrappers (String vs RegExp, other flag, other precedence);
+    // such twins are valid in DIFFERENT modes only (in one state they would be one ambiguous token)
+    if rng.chance(1, 2) && !toks.is_empty() {
+        let i = rng.below(toks.len());
+        if !matches!(toks[i].re, Re::Alts(_)) {
+            let mut twin = toks[i].clone();
+            match (&twin.re, rng.below(3)) {
+                (Re::Lit(_), 0) => { twin.is_string = !twin.is_string; twin.ci = false; }
+                (_, 1) if !twin.is_string => twin.ci = !twin.ci,
+                _ => { if twin.is_string { twin.is_string = false; } else { twin.ci = !twin.ci; } twin.prec = 1 - twin.prec.min(1).max(0); }
+            }
+            if !toks.iter().any(|t| t.re.ser() == twin.re.ser() && t.is_string == twin.is_string && t.ci == twin.ci) { toks.push(twin); }
+        }
+    }
     let n = toks.len();
     let mut masks: Vec<u8> = (0..n).map(|_| *rng.pick(&[1u8, 2, 3, 1, 2])).collect();
-    if !masks.iter().any(|m| m & 1 != 0) { masks[0] |= 1; }
-    if !masks.iter().any(|m| m & 2 != 0) { masks[n - 1] |= 2; }
+    // tokens with the same AST (twins) get disjoint modes
+    for i in 0..n { for j in 0..i { if toks[i].re.ser() == toks[j].re.ser() { masks[j] = 1; masks[i] = 2; } } }
+    let twin_of = |i: usize| (0..n).any(|j| j != i && toks[j].re.ser() == toks[i].re.ser());
+    if !masks.iter().any(|m| m & 1 != 0) { if let Some(i) = (0..n).find(|i| !twin_of(*i)) { masks[i] |= 1; } }
+    if !masks.iter().any(|m| m & 2 != 0) { if let Some(i) = (0..n).rev().find(|i| !twin_of(*i)) { masks[i] |= 2; } }
     let mut follow = None;
     if n >= 3 && rng.chance(1, 2) {
         let x = rng.below(n);
         let y = (x + 1 + rng.below(n - 1)) % n;
+        let twin = |i: usize| (0..n).any(|j| j != i && toks[j].re.ser() == toks[i].re.ser());
         // y is not a plain item of the modes in which x is valid: it is valid only after x there
         let keep = masks[y] & !masks[x];
-        if masks[x] != 0 && (keep != 0 || true) {
+        if masks[x] != 0 && !twin(x) && !twin(y) {
             masks[y] = keep;
             follow = Some((x, y));
             // every other token must still leave both modes non-empty
             if !masks.iter().enumerate().any(|(i, m)| i != y && m & 1 != 0) || !masks.iter().enumerate().any(|(i, m)| i != y && m & 2 != 0) {
-                for (i, m) in masks.iter_mut().enumerate() { if i != y { *m = 3; } }
+                for (i, m) in masks.iter_mut().enumerate() { if i != y && !(0..n).any(|j| j != i && toks[j].re.ser() == toks[i].re.ser()) { *m = 3; } }
             }
         }
     }
@@ -626,16 +669,16 @@ fn rand_mode_set(rng: &mut Rng) -> ModeSet {
             let v: Vec<u32> = (0..rng.range(1, 3)).map(|_| *rng.pick(&LETTERS)).collect();
             if toks.iter().any(|t| matches!(&t.re, Re::Lit(x) if *x == v)) { continue; }
             kw_idx.push(toks.len());
-            toks.push(Tok { prec: 0, is_string: true, re: Re::Lit(v), immediate: false });
+            toks.push(Tok { prec: 0, is_string: true, re: Re::Lit(v), immediate: false, ci: false });
             masks.push(*rng.pick(&[1u8, 2, 3]));
         }
         word = Some(toks.len());
-        toks.push(Tok { prec: 0, is_string: false, re: wre, immediate: false });
+        toks.push(Tok { prec: 0, is_string: false, re: wre, immediate: false, ci: false });
         masks.push(*rng.pick(&[1u8, 2, 3, 3]));
         if rng.chance(1, 2) { for k in kw_idx { if rng.chance(2, 3) { reserved.push(k); } } }
     }
-    toks.push(Tok { prec: 0, is_string: true, re: Re::Lit(vec![0x28]), immediate: false });
-    toks.push(Tok { prec: 0, is_string: true, re: Re::Lit(vec![0x29]), immediate: false });
+    toks.push(Tok { prec: 0, is_string: true, re: Re::Lit(vec![0x28]), immediate: false, ci: false });
+    toks.push(Tok { prec: 0, is_string: true, re: Re::Lit(vec![0x29]), immediate: false, ci: false });
     masks.push(3);
     masks.push(3);
     ModeSet { extras: base.extras, follow, word, reserved, toks, masks }
@@ -738,6 +781,7 @@ fn mode_strings(ms: &ModeSet, rng: &mut Rng, n_random: usize, enum_len: usize, f
         if left == 0 { return; }
         for c in syms { s.push(*c); rec(s, left - 1, syms, f); s.pop(); }
     }
+    if ms.toks.iter().any(|t| t.ci) { enum_syms.extend([0x41, 0x42, 0xc9]); }
     for mark in [0x28u32, 0x29] { let mut s = vec![mark]; rec(&mut s, enum_len, &enum_syms, f); }
     // random sentences of the grammar, tokens glued or separated by blanks
     for _ in 0..n_random {
@@ -749,7 +793,9 @@ fn mode_strings(ms: &ModeSet, rng: &mut Rng, n_random: usize, enum_len: usize, f
             for _ in 0..rng.below(5) {
                 if rng.chance(1, 2) { s.push(0x20); }
                 let i = if rng.chance(1, 8) { rng.below(ms.toks.len() - 2) } else { *rng.pick(&items) };
+                let from = s.len();
                 sample_re(&ms.toks[i].re, rng, &mut s);
+                if ms.toks[i].ci || rng.chance(1, 10) { for c in s[from..].iter_mut() { if rng.chance(1, 2) { *c = match *c { 0x61..=0x64 => *c - 0x20, 0xe9 => 0xc9, 0x3bb => 0x39b, o => o }; } } }
                 if let Some((x, y)) = ms.follow { if x == i && rng.chance(1, 2) { if rng.chance(1, 2) { s.push(0x20); } sample_re(&ms.toks[y].re, rng, &mut s); } }
             }
         }
@@ -803,7 +849,7 @@ fn rand_large_class_set(rng: &mut Rng) -> (TokSet, Vec<u32>) {
     let suffixes = [0x21u32, 0x2b, 0x3b];
     let mut toks: Vec<Tok> = Vec::new();
     let p = |rng: &mut Rng| if rng.chance(1, 4) { 1 } else { 0 };
-    toks.push(Tok { prec: p(rng), is_string: false, re: Re::Plus(Box::new(cls(&c1))), immediate: false });
+    toks.push(Tok { prec: p(rng), is_string: false, re: Re::Plus(Box::new(cls(&c1))), immediate: false, ci: false });
     for k in 0..rng.range(1, 3) {
         let v = variant(rng);
         let body = Re::Plus(Box::new(cls(&v)));
@@ -814,13 +860,13 @@ fn rand_large_class_set(rng: &mut Rng) -> (TokSet, Vec<u32>) {
         };
         if toks.iter().any(|t| t.re.ser() == re.ser()) { continue; }
         let at = rng.below(toks.len() + 1);
-        toks.insert(at, Tok { prec: p(rng), is_string: false, re, immediate: false });
+        toks.insert(at, Tok { prec: p(rng), is_string: false, re, immediate: false, ci: false });
     }
     if rng.chance(1, 2) {
         let v: Vec<u32> = universe.iter().copied().filter(|c| !c1.contains(c)).collect();
-        toks.push(Tok { prec: 0, is_string: false, re: Re::Plus(Box::new(cls(&v))), immediate: false });
+        toks.push(Tok { prec: 0, is_string: false, re: Re::Plus(Box::new(cls(&v))), immediate: false, ci: false });
     }
-    if rng.chance(1, 2) { toks.push(Tok { prec: 0, is_string: true, re: Re::Lit(vec![*rng.pick(&suffixes)]), immediate: false }); }
+    if rng.chance(1, 2) { toks.push(Tok { prec: 0, is_string: true, re: Re::Lit(vec![*rng.pick(&suffixes)]), immediate: false, ci: false }); }
     // alphabet: all range boundaries of all classes and their neighbours, the suffix characters, the blank
     let mut alpha: Vec<u32> = vec![0x20];
     alpha.extend(suffixes);
@@ -914,6 +960,13 @@ fn main() {
                 for c in syms { s.push(*c); rec(s, left - 1, syms, f); s.pop(); }
             }
             rec(&mut s, full_len, &enum_syms, f);
+            if ts.toks.iter().any(|t| t.ci) {
+                // case-insensitive tokens: upper-case letters (and mixed case) in the enumerated alphabet
+                let upper: Vec<u32> = vec![0x41, 0x42, 0x61, 0x62, 0xc9, 0xe9, 0x39b, 0x30, 0x20];
+                let mut s2: Vec<u32> = Vec::new();
+                rec(&mut s2, full_len.min(4), &upper, f);
+                for _ in 0..n_long { let len = srng.range(4, 20); let v: Vec<u32> = (0..len).map(|_| { let c = *srng.pick(&syms); if srng.chance(1, 2) { match c { 0x61..=0x64 => c - 0x20, 0xe9 => 0xc9, 0x3bb => 0x39b, _ => c } } else { c } }).collect(); f(&v); }
+            }
             // random strings of the next length, and longer ones with spaces
             for _ in 0..n_len_next { let v: Vec<u32> = (0..full_len + 1).map(|_| *srng.pick(&enum_syms)).collect(); f(&v); }
             for _ in 0..n_long { let len = srng.range(6, 40); let v: Vec<u32> = (0..len).map(|_| *srng.pick(&syms)).collect(); f(&v); }
